@@ -368,13 +368,18 @@ pub fn c08_wrapper_pod() {
 // Each harness must FAIL in exactly one way: the size (or alignment) assertion of the real
 // function; the cover inside the converter must be unsatisfiable.  kani_units.py checks both (the
 // set of failed checks and the cover count), so a harness that "passes" is a violation too.
+// (A stub of `ManuallyDrop::new` carrying a cover "ownership taken before the refusal" was tried: the
+// Kani compiler aborts (SIGABRT) on it.  "The refused vector is dropped normally" therefore stays an
+// argument -- the refusal precedes `ManuallyDrop::new` in the source -- not a checked clause.)
 macro_rules! mismatch {
-    ($name:ident, $t:ty, $u:ty, $mk:expr) => {
+    ($name:ident, $t:ty, $u:ty, $len:expr, $mk:expr) => {
         #[kani::proof]
         #[kani::unwind(4)]
         #[kani::stub(real_cu, cu_stub)]
         pub fn $name() {
-            let len = any_len(2);
+            // the refusal must happen for THIS length (0 and 2 are separate harnesses: a check
+            // weakened to `size * len` would let the empty vector through)
+            let len: usize = $len;
             let mut v: Vec<$t> = Vec::with_capacity(2);
             let mut i = 0;
             while i < len {
@@ -396,17 +401,22 @@ pub struct Bytes4Aligned4([u8; 4]);
 pub mod c10 {
     use super::*;
     // size differs, alignment differs
-    mismatch!(c10_size_align_u32_u16, u32, u16, kani::any());
+    mismatch!(c10_size_align_u32_u16_len2, u32, u16, 2, kani::any());
+    mismatch!(c10_size_align_u32_u16_len0, u32, u16, 0, kani::any());
     // size differs, alignment equal
-    mismatch!(c10_size_u8x4_u8x3, [u8; 4], [u8; 3], kani::any());
-    // size equal, alignment differs
-    mismatch!(c10_align_u8x4_u32, [u8; 4], u32, kani::any());
-    mismatch!(c10_align_u32_u8x4, u32, [u8; 4], kani::any());
+    mismatch!(c10_size_u8x4_u8x3_len2, [u8; 4], [u8; 3], 2, kani::any());
+    mismatch!(c10_size_u8x4_u8x3_len0, [u8; 4], [u8; 3], 0, kani::any());
+    // size equal, alignment differs (both directions)
+    mismatch!(c10_align_u8x4_u32_len2, [u8; 4], u32, 2, kani::any());
+    mismatch!(c10_align_u8x4_u32_len0, [u8; 4], u32, 0, kani::any());
+    mismatch!(c10_align_u32_u8x4_len2, u32, [u8; 4], 2, kani::any());
+    mismatch!(c10_align_u32_u8x4_len0, u32, [u8; 4], 0, kani::any());
     // zero-size vs non-zero-size (both directions)
-    mismatch!(c10_zst_unit_u8, (), u8, ());
-    mismatch!(c10_zst_u8_unit, u8, (), kani::any());
+    mismatch!(c10_zst_unit_u8_len2, (), u8, 2, ());
+    mismatch!(c10_zst_unit_u8_len0, (), u8, 0, ());
+    mismatch!(c10_zst_u8_unit_len2, u8, (), 2, kani::any());
     // size equal (0), alignment differs
-    mismatch!(c10_align_zst, (), [u32; 0], ());
+    mismatch!(c10_align_zst_len2, (), [u32; 0], 2, ());
     // owned heap elements
-    mismatch!(c10_size_box_u8, Box<u8>, u8, Box::new(kani::any()));
+    mismatch!(c10_size_box_u8_len2, Box<u8>, u8, 2, Box::new(kani::any()));
 }
